@@ -421,21 +421,77 @@ Proof.
   - norm. exact R_rbfail0.
 Qed.
 
+(* ---- changes of the environment fields only (fault injection, __in_begin) ---- *)
+Lemma R_env : forall s s' p p', R s p ->
+  txns s' = txns s -> c_root s' = c_root s -> c_nested s' = c_nested s -> c_ctx s' = c_ctx s ->
+  c_seq s' = c_seq s -> c_closed s' = c_closed s -> s_db s' = s_db s -> s_out s' = s_out s ->
+  c_in_begin s' = false -> c_beginfail s' = p_beginfail p' -> c_rbfail s' = p_rbfail p' ->
+  p_committed p' = p_committed p -> p_cur p' = p_cur p -> p_stack p' = p_stack p ->
+  p_kinds p' = p_kinds p -> p_ctx p' = p_ctx p -> p_closed p' = p_closed p ->
+  R s' p'.
+Proof.
+  intros s s' p p' HR Ht Hr Hn Hc Hs Hcl Hd Ho Hib Hbf Hrf E1 E2 E3 E4 E5 E6.
+  assert (G : forall k, get k s' = get k s) by (intro k; unfold get; rewrite Ht; reflexivity).
+  assert (Gl : length (txns s') = length (txns s)) by (rewrite Ht; reflexivity).
+  pose proof HR as [].
+  constructor; try congruence.
+  - unfold p_next in *. congruence.
+  - intros k Hk. unfold is_root, kind_root. rewrite G, E4. apply R_kinds0. lia.
+  - intros k. unfold active, live. rewrite G, E3. apply R_active0.
+  - rewrite E6, E3. auto.
+  - unfold frames in *. rewrite Hr, Hn, Hd, E3. destruct (c_root s); auto.
+    destruct R_frames0 as (nf & snap & A & B & C). exists nf, snap. repeat split; auto.
+    + unfold is_root in *. rewrite G. auto.
+    + eapply chain_ext; eauto; [lia|]. intros k Hk. unfold is_root, prev, sp. rewrite G. auto.
+  - intros e He. rewrite Hd in He. rewrite Hs. auto.
+  - rewrite Hc, E5. eapply ctxrel_ext; eauto; [lia|]. intros k Hk. unfold outer. rewrite G. reflexivity.
+  - intros k Hk. unfold subject. rewrite G, E5. apply R_subject0. lia.
+Qed.
+
+Lemma R_begin_failed : forall s p, R s p -> p_beginfail p <> 0%N ->
+  R (set_in_begin false (if N.eqb (c_beginfail s) 1 then set_beginfail 0%N (set_in_begin true s)
+                         else set_in_begin true s)) (snd (begin_root p)) /\
+  fst (begin_root p) = true.
+Proof.
+  intros s p HR Hbf. rewrite (R_bfail _ _ HR). unfold begin_root.
+  destruct (p_beginfail p) as [|[q|q|]] eqn:E; try contradiction; cbn [N.eqb Pos.eqb fst snd]; split; auto;
+    eapply R_env; eauto; norm; auto using (R_rbfail _ _ HR), (R_bfail _ _ HR).
+Qed.
+
+Definition res_ok (r : res) (b : bool) : Prop :=
+  match r with Ok => b = false | Raise _ => b = true | OutOfFuel => False end.
+
+(* RootTransaction.__init__ with the `begin` listeners of the environment *)
+Lemma R_new_root_any : forall s p, R s p -> c_root s = None -> blocked p = false ->
+  exists r s', new_root s = (r, s') /\ R s' (snd (begin_root p)) /\ res_ok r (fst (begin_root p)) /\
+               (r = Ok -> c_root s' <> None).
+Proof.
+  intros s p HR Hr Hb. destruct (N.eq_dec (p_beginfail p) 0) as [E|E].
+  - destruct (R_new_root _ _ HR Hr Hb E) as (s' & A & B & C). exists Ok, s'. unfold begin_root. rewrite E.
+    split; [exact A|]. split; [exact B|]. split; [reflexivity|]. intros _. congruence.
+  - destruct (R_begin_failed _ _ HR E) as [B F].
+    pose proof Hb as Hb'. apply orb_false_elim in Hb'. destruct Hb' as [Hc Hx].
+    unfold new_root, bind. rewrite (R_ctx_check _ _ HR), Hx, (R_closed _ _ HR), Hc.
+    rewrite begin_impl_fail by (rewrite (R_bfail _ _ HR); auto).
+    eexists _, _. split; [reflexivity|]. split; [exact B|]. split; [exact F|discriminate].
+Qed.
+
 (* ---- the transactional prologue of execute under R ---- *)
 Lemma R_exec_guard : forall s p, R s p -> blocked p = false ->
-  exists s', exec_guard s = (Ok, s') /\ R s' (autobegin_spec p) /\ c_root s' <> None.
+  exists r s', exec_guard s = (r, s') /\ R s' (snd (autobegin_spec p)) /\
+               res_ok r (fst (autobegin_spec p)) /\ (r = Ok -> c_root s' <> None).
 Proof.
   intros s p HR Hb. destruct (c_root s) as [r|] eqn:Hr.
   - apply orb_false_elim in Hb. destruct Hb as [_ Hb].
-    exists s. rewrite (R_guard_ok _ _ _ HR Hr Hb). split; [auto|].
+    exists Ok, s. rewrite (R_guard_ok _ _ _ HR Hr Hb). split; [auto|].
     destruct (R_root_some _ _ _ HR Hr) as (nf & snap & Hst & _).
-    unfold autobegin_spec. rewrite Hst. destruct nf; cbn; (split; [auto|congruence]).
-  - destruct (R_new_root _ _ HR Hr Hb) as (s' & A & B & C).
+    unfold autobegin_spec. rewrite Hst. destruct nf; cbn; (split; [auto|split; [auto|congruence]]).
+  - destruct (R_new_root_any _ _ HR Hr Hb) as (r & s' & A & B & C & D).
     pose proof Hb as Hb'. apply orb_false_elim in Hb'. destruct Hb' as [Hc Hx].
-    exists s'. unfold exec_guard. rewrite (R_closed _ _ HR), Hc, (R_pending_false _ _ HR).
-    unfold bind. rewrite (R_ctx_check _ _ HR), Hx. unfold autobegin_if_none, begin. rewrite Hr, A.
-    destruct (R_root_none _ _ HR Hr) as [Hst _]. unfold autobegin_spec. rewrite Hst.
-    split; [auto|split; [auto|congruence]].
+    exists r, s'. unfold exec_guard. rewrite (R_closed _ _ HR), Hc, (R_pending_false _ _ HR).
+    unfold bind. rewrite (R_ctx_check _ _ HR), Hx. unfold autobegin_if_none, begin.
+    rewrite Hr, (R_nb _ _ HR), A.
+    destruct (R_root_none _ _ HR Hr) as [Hst _]. unfold autobegin_spec. rewrite Hst. auto.
 Qed.
 
 Lemma R_closed_root_none : forall s p, R s p -> p_closed p = true -> c_root s = None.
@@ -459,7 +515,7 @@ Proof.
   - unfold new_nested, bind. rewrite (R_ctx_check _ _ HR).
     destruct (ctx_bad p) eqn:Hx; [eauto|]. unfold blocked in Hb. rewrite Hx, orb_false_r in Hb.
     rewrite (R_closed_root_none _ _ HR Hb) in Hr. discriminate.
-  - destruct (R_blocked_new_root _ _ HR Hb) as [e ->]. eauto.
+  - rewrite (R_nb _ _ HR). destruct (R_blocked_new_root _ _ HR Hb) as [e ->]. eauto.
 Qed.
 
 Lemma R_blocked_ins : forall s p v, R s p -> blocked p = true -> exists e, ins v s = (Raise e, s).
@@ -555,22 +611,26 @@ Lemma R_root_end : forall s p s' (b : bool), R s p -> same_but s s' ->
   c_root s' = None -> c_nested s' = None ->
   s_db s' = (if b then mkDb (work (s_db s)) (work (s_db s)) [] else mkDb (committed (s_db s)) (committed (s_db s)) []) ->
   (forall j, active j s' = false) -> forallb snd (s_out s') = true ->
+  (b = false -> p_rbfail p = false) ->
   R s' (if b then commit_all p else rollback_all p).
 Proof.
-  intros s p s' b HR SB Hr Hn Hd Ha Ho.
-  destruct b; apply (R_after s s' p _ HR SB); try reflexivity; auto.
-  - rewrite Hd. apply (R_work _ _ HR).
-  - rewrite Hd. apply (R_work _ _ HR).
-  - unfold frames. rewrite Hr. auto.
-  - constructor.
-  - rewrite Hd. constructor.
-  - rewrite Hd. intros e [].
-  - rewrite Hd. apply (R_committed _ _ HR).
-  - rewrite Hd. apply (R_committed _ _ HR).
-  - unfold frames. rewrite Hr. auto.
-  - constructor.
-  - rewrite Hd. constructor.
-  - rewrite Hd. intros e [].
+  intros s p s' b HR SB Hr Hn Hd Ha Ho Hrf.
+  destruct b.
+  - apply (R_after s s' p _ HR SB); try reflexivity; auto.
+    + rewrite Hd. apply (R_work _ _ HR).
+    + rewrite Hd. apply (R_work _ _ HR).
+    + unfold frames. rewrite Hr. auto.
+    + constructor.
+    + rewrite Hd. constructor.
+    + rewrite Hd. intros e [].
+  - apply (R_after s s' p _ HR SB); try reflexivity; auto.
+    + cbn. symmetry. auto.
+    + rewrite Hd. apply (R_committed _ _ HR).
+    + rewrite Hd. apply (R_committed _ _ HR).
+    + unfold frames. rewrite Hr. auto.
+    + constructor.
+    + rewrite Hd. constructor.
+    + rewrite Hd. intros e [].
 Qed.
 
 Lemma root_do_commit_R : forall s p r, R s p -> WF s -> c_root s = Some r ->
@@ -586,24 +646,46 @@ Proof.
   - apply (R_root_end s p _ true HR); norm; auto.
     + eapply sb_trans; [exact SB|apply sb_set_root].
     + rewrite F, forallb_app, (R_out _ _ HR). reflexivity.
+    + discriminate.
   - eapply sb_trans; [exact SB|apply sb_set_root].
 Qed.
 
+(* rollback of the live root transaction, with the DBAPI rollback succeeding or reporting an error *)
+Lemma root_close_tail : forall s p r t, R s p -> WF s -> c_root s = Some r -> p_rbfail p = false ->
+  exists s', bind cancel_nested
+               (bind (fun s => if active r s || t then deact_root r s else (Ok, s))
+                     (fun s => if opt_is (c_root s) r then (Ok, set_root None s) else (Ok, s)))
+               (add_out (Rollback, true) (set_db (mkDb (committed (s_db s)) (committed (s_db s)) []) s)) = (Ok, s') /\
+             R s' (rollback_all p).
+Proof.
+  intros s p r t HR W Hr Hf.
+  destruct (root_tail s p r _ Rollback (mkDb (committed (s_db s)) (committed (s_db s)) []) HR W Hr eq_refl)
+    as (s2 & s3 & A & B & Ar & C & SB & D & E & F & G).
+  exists (set_root None s3). unfold bind at 1. rewrite A.
+  unfold bind. rewrite Ar. cbn [orb]. rewrite B, C. cbn [opt_is]. rewrite Nat.eqb_refl.
+  split; [reflexivity|].
+  apply (R_root_end s p _ false HR); norm; auto.
+  - eapply sb_trans; [exact SB|apply sb_set_root].
+  - rewrite F, forallb_app, (R_out _ _ HR). reflexivity.
+Qed.
+
 Lemma root_close_impl_R : forall s p r t, R s p -> WF s -> c_root s = Some r ->
-  exists s', root_close_impl r t s = (Ok, s') /\ R s' (rollback_all p) /\ same_but s s'.
+  exists res s', root_close_impl r t s = (res, s') /\ R s' (rollback_all p) /\ res_ok res (p_rbfail p).
 Proof.
   intros s p r t HR W Hr.
   destruct (R_root_some _ _ _ HR Hr) as (nf & snap & Hst & Hroot & Hch & Hact & Hcl & Hnin).
-  destruct (root_tail s p r _ Rollback (mkDb (committed (s_db s)) (committed (s_db s)) []) HR W Hr eq_refl)
-    as (s2 & s3 & A & B & Ar & C & SB & D & E & F & G).
-  exists (set_root None s3). unfold root_close_impl, finally. unfold bind at 1. rewrite Hact.
-  unfold rollback_impl. rewrite Hcl. unfold emit. cbn [exec_cmd]. rewrite A.
-  unfold bind. rewrite Ar. cbn [orb]. rewrite B, C. cbn [opt_is]. rewrite Nat.eqb_refl.
-  split; [reflexivity|]. split.
-  - apply (R_root_end s p _ false HR); norm; auto.
-    + eapply sb_trans; [exact SB|apply sb_set_root].
-    + rewrite F, forallb_app, (R_out _ _ HR). reflexivity.
-  - eapply sb_trans; [exact SB|apply sb_set_root].
+  unfold root_close_impl, finally. rewrite Hact. unfold rollback_impl. rewrite Hcl, (R_rbfail _ _ HR).
+  destruct (p_rbfail p) eqn:Hf.
+  - (* the DBAPI rollback is performed and reports an error *)
+    assert (HR0 : R (set_rbfail false s) (set_prbfail false p)).
+    { eapply R_env; eauto; norm; auto using (R_nb _ _ HR), (R_bfail _ _ HR). }
+    assert (W0 : WF (set_rbfail false s)) by (apply WF_set_rbfail, W).
+    destruct (root_close_tail _ _ r t HR0 W0) as (s' & A & B); [norm; auto|reflexivity|].
+    exists (Raise OperationalError), s'. split; [|split; [exact B|reflexivity]].
+    unfold bind at 1. unfold emit. cbn [exec_cmd]. norm. norm in A. rewrite A. reflexivity.
+  - destruct (root_close_tail _ _ r t HR W Hr Hf) as (s' & A & B).
+    exists Ok, s'. split; [|split; [exact B|reflexivity]].
+    unfold emit. cbn [exec_cmd]. rewrite A. reflexivity.
 Qed.
 
 (* ---- ending the innermost savepoint ---- *)
@@ -668,7 +750,7 @@ Lemma commit_handle_inner : forall k p fr, below k (p_stack p) = fr -> fr <> [] 
   commit_handle k p = set_stack fr (p_cur p) p.
 Proof. intros. unfold commit_handle. rewrite H. destruct fr; [contradiction|reflexivity]. Qed.
 Lemma rollback_handle_inner : forall k p fr, below k (p_stack p) = fr -> fr <> [] ->
-  rollback_handle k p = set_stack fr (snap_of k (p_stack p) (p_cur p)) p.
+  rollback_handle k p = (false, set_stack fr (snap_of k (p_stack p) (p_cur p)) p).
 Proof. intros. unfold rollback_handle. rewrite H. destruct fr; [contradiction|reflexivity]. Qed.
 Lemma app_one_not_nil : forall A (l : list A) x, l ++ [x] <> [].
 Proof. intros A l x H. destruct l; discriminate. Qed.
@@ -694,7 +776,8 @@ Qed.
 
 Lemma nested_close_impl_R : forall s p r k w, R s p -> c_root s = Some r -> c_nested s = Some k ->
   ctx_bad p = false ->
-  exists s', nested_close_impl k w s = (Ok, s') /\ R s' (rollback_handle k p) /\ same_but s s'.
+  exists s', nested_close_impl k w s = (Ok, s') /\ R s' (snd (rollback_handle k p)) /\
+             fst (rollback_handle k p) = false.
 Proof.
   intros s p r k w HR Hr Hk Hb.
   destruct (R_top_nested _ _ _ _ HR Hr Hk) as (snap & nf' & rs & sv1 & sv2 & Hst & Hsv & Hch & Hkr & Hkl & Hdrop & Hnn & Hak & Har & Hcl & Hrr).
@@ -704,12 +787,12 @@ Proof.
   unfold bind, deact_nested. norm. rewrite Hk. cbn [opt_is]. rewrite Nat.eqb_refl.
   eexists. split; [reflexivity|]. split.
   - rewrite (rollback_handle_inner k p (nf' ++ [(r, rs)])) by (rewrite ?Hst, ?below_head; auto using app_one_not_nil).
-    rewrite Hst. cbn [snap_of]. rewrite Nat.eqb_refl.
+    rewrite Hst. cbn [snap_of snd]. rewrite Nat.eqb_refl.
     norm. eapply R_nested_end; eauto; cbn [committed work saves].
     + apply chain_stale. auto.
     + intros e He. rewrite Hsv. apply in_or_app. right. auto.
-  - norm. eapply sb_trans; [apply sb_set_db|]. eapply sb_trans; [apply sb_add_out|].
-    eapply sb_trans; [apply sb_set_active|apply sb_set_nested].
+  - rewrite (rollback_handle_inner k p (nf' ++ [(r, rs)])) by (rewrite ?Hst, ?below_head; auto using app_one_not_nil).
+    reflexivity.
 Qed.
 
 (* ---- operations on an ended handle, inside the guard ---- *)
@@ -760,7 +843,7 @@ Lemma dead_root_close_R : forall s p k t, R s p -> live k p = false -> spec_in_n
   exists s', root_close_impl k t s = (Ok, s') /\ R s' p /\ same_but s s'.
 Proof.
   intros s p k t HR Hl Hn. destruct (R_not_installed _ _ _ HR Hl) as (A & B & C).
-  rewrite (root_close_impl_inactive _ _ _ C). unfold finally, cancel_nested.
+  rewrite (root_close_impl_inactive _ _ _ C). unfold bind at 1. unfold cancel_nested.
   rewrite (R_no_nested _ _ HR Hn). unfold root_close_fin, bind. rewrite C. cbn [orb].
   destruct t.
   - unfold deact_root. rewrite C, A. unfold warn. norm. rewrite A. eexists. split; [reflexivity|]. split.
@@ -822,12 +905,17 @@ Proof.
 Qed.
 
 Lemma live_close_R : forall s p k (b : bool), R s p -> WF s -> live k p = true -> ok_end k p = true ->
-  exists s', (if b then t_rollback k s else t_close k s) = (Ok, s') /\ R s' (rollback_handle k p) /\ same_but s s'.
+  exists res s', (if b then t_rollback k s else t_close k s) = (res, s') /\
+                 R s' (snd (rollback_handle k p)) /\ res_ok res (fst (rollback_handle k p)).
 Proof.
   intros s p k b HR W Hl Hg. destruct (live_cases _ _ _ HR Hl Hg) as [Hr Hk Hb|r Hr Hn Hk Hb];
     unfold t_rollback, t_close; rewrite Hk.
-  - unfold rollback_handle. rewrite Hb. destruct b; apply root_close_impl_R; auto.
-  - destruct b; eapply nested_close_impl_R; eauto.
+  - unfold rollback_handle. rewrite Hb. cbn [fst snd]. destruct b; apply root_close_impl_R; auto.
+  - destruct b.
+    + destruct (nested_close_impl_R _ _ _ _ true HR Hr Hn Hb) as (s' & A & B & C).
+      exists Ok, s'. rewrite C. split; [exact A|split; [exact B|reflexivity]].
+    + destruct (nested_close_impl_R _ _ _ _ false HR Hr Hn Hb) as (s' & A & B & C).
+      exists Ok, s'. rewrite C. split; [exact A|split; [exact B|reflexivity]].
 Qed.
 
 (* ---- remaining state changes ---- *)
@@ -842,12 +930,11 @@ Proof.
     cbn [db_insert saves]. eapply chain_sb; eauto. apply sb_set_db.
 Qed.
 
-Definition close_spec (q : spec) : spec :=
-  mkP (p_committed q) (p_cur q) (p_stack q) (p_kinds q) (p_ctx q) true.
+Definition close_spec (q : spec) : spec := set_pclosed true q.
 
 Lemma R_set_closed : forall s q, R s q -> p_stack q = [] -> R (set_closed true s) (close_spec q).
 Proof.
-  intros s q HR Hst. pose proof HR as []. constructor; cbn [close_spec p_committed p_cur p_stack p_kinds p_ctx p_closed].
+  intros s q HR Hst. pose proof HR as []. constructor; cbn [close_spec set_pclosed p_committed p_cur p_stack p_kinds p_ctx p_closed p_beginfail p_rbfail].
   - norm. exact R_len0.
   - intros k Hk. norm. norm in Hk. apply R_kinds0. exact Hk.
   - intros k. norm. apply R_active0.
@@ -855,7 +942,7 @@ Proof.
   - auto.
   - norm. auto.
   - norm. auto.
-  - unfold frames in *. norm. cbn [p_stack close_spec]. destruct (c_root s); auto.
+  - unfold frames in *. norm. cbn [p_stack close_spec set_pclosed]. destruct (c_root s); auto.
     destruct R_frames0 as (nf & snap & A & B & C). exists nf, snap. repeat split; auto.
     eapply chain_ext; eauto; intros; norm; auto.
   - auto.
@@ -869,17 +956,15 @@ Proof.
   - norm. exact R_rbfail0.
 Qed.
 
-Definition enter_spec (k : nat) (p : spec) : spec :=
-  mkP (p_committed p) (p_cur p) (p_stack p) (p_kinds p) (k :: p_ctx p) (p_closed p).
-Definition exit_spec (q : spec) : spec :=
-  mkP (p_committed q) (p_cur q) (p_stack q) (p_kinds q) (tl (p_ctx q)) (p_closed q).
+Definition enter_spec (k : nat) (p : spec) : spec := set_pctx (k :: p_ctx p) p.
+Definition exit_spec (q : spec) : spec := set_pctx (tl (p_ctx q)) q.
 
 Lemma R_enter : forall s p k, R s p -> k < length (txns s) -> existsb (Nat.eqb k) (p_ctx p) = false ->
   R (set_ctx (Some k) (upd_txn k (set_ctx_t true (c_ctx s)) s)) (enter_spec k p).
 Proof.
   intros s p k HR Hk Hin. pose proof HR as [].
   assert (Hnin : ~ In k (p_ctx p)) by (intro X; apply existsb_in in X; congruence).
-  constructor; cbn [enter_spec p_committed p_cur p_stack p_kinds p_ctx p_closed].
+  constructor; cbn [enter_spec set_pctx p_committed p_cur p_stack p_kinds p_ctx p_closed p_beginfail p_rbfail].
   - norm. exact R_len0.
   - intros j Hj. norm. norm in Hj. apply R_kinds0. exact Hj.
   - intros j. norm. apply R_active0.
@@ -887,7 +972,7 @@ Proof.
   - exact R_closed_empty0.
   - norm. auto.
   - norm. auto.
-  - unfold frames in *. norm. cbn [p_stack enter_spec]. destruct (c_root s); auto.
+  - unfold frames in *. norm. cbn [p_stack enter_spec set_pctx]. destruct (c_root s); auto.
     destruct R_frames0 as (nf & snap & A & B & C). exists nf, snap. repeat split; auto.
     + norm. auto.
     + eapply chain_ext; eauto; intros; norm; auto.
@@ -912,7 +997,7 @@ Lemma R_exit_fin : forall s q k l, R s q -> p_ctx q = k :: l ->
 Proof.
   intros s q k l HR Hc. pose proof HR as [].
   rewrite Hc in R_ctx0. inversion R_ctx0; subst.
-  constructor; cbn [exit_spec p_committed p_cur p_stack p_kinds p_ctx p_closed].
+  constructor; cbn [exit_spec set_pctx p_committed p_cur p_stack p_kinds p_ctx p_closed p_beginfail p_rbfail].
   - norm. exact R_len0.
   - intros j Hj. norm. norm in Hj. apply R_kinds0. exact Hj.
   - intros j. norm. apply R_active0.
@@ -920,7 +1005,7 @@ Proof.
   - exact R_closed_empty0.
   - norm. auto.
   - norm. auto.
-  - unfold frames in *. norm. cbn [p_stack exit_spec]. destruct (c_root s); auto.
+  - unfold frames in *. norm. cbn [p_stack exit_spec set_pctx]. destruct (c_root s); auto.
     destruct R_frames0 as (nf & snap & A & B & C). exists nf, snap. repeat split; auto.
     + norm. auto.
     + eapply chain_ext; eauto; intros; norm; auto.
@@ -942,9 +1027,6 @@ Proof.
 Qed.
 
 (* ---- one operation ---- *)
-Definition res_ok (r : res) (b : bool) : Prop :=
-  match r with Ok => b = false | Raise _ => b = true | OutOfFuel => False end.
-
 Lemma stack_root : forall s p, R s p -> (p_stack p = [] <-> c_root s = None).
 Proof.
   intros s p HR. split; intro H.
@@ -962,37 +1044,53 @@ Proof.
     destruct (p_stack p) eqn:E; [contradiction|]. cbn in H. rewrite orb_true_r in H. inversion H; subst.
     eexists _, s. split; [reflexivity|]. split; [auto|reflexivity].
   - rewrite (proj2 (stack_root _ _ HR) Hr) in H. cbn in H. rewrite orb_false_r in H.
-    destruct (blocked p) eqn:Hb; inversion H; subst.
-    + destruct (R_blocked_new_root _ _ HR Hb) as [e ->]. eexists _, s. split; [reflexivity|]. split; [auto|reflexivity].
-    + destruct (R_new_root _ _ HR Hr Hb) as (s' & A & B & _). rewrite A. eexists _, s'. split; [reflexivity|]. split; [auto|reflexivity].
+    destruct (blocked p) eqn:Hb.
+    + inversion H; subst. destruct (R_blocked_new_root _ _ HR Hb) as [e ->].
+      eexists _, s. split; [reflexivity|]. split; [auto|reflexivity].
+    + destruct (R_new_root_any _ _ HR Hr Hb) as (r & s' & A & B & C & _). rewrite A.
+      destruct (begin_root p) as [b0 q]. inversion H; subst. cbn in *. eauto.
 Qed.
+
+Lemma ctx_bad_same : forall p q, p_ctx q = p_ctx p -> p_stack q = p_stack p -> ctx_bad q = ctx_bad p.
+Proof. intros p q A B. unfold ctx_bad, live. rewrite A, B. reflexivity. Qed.
 
 Lemma sim_nested : forall s p b p', R s p -> sstep ONested p = Some (b, p') ->
   exists r s', begin_nested s = (r, s') /\ R s' p' /\ res_ok r b.
 Proof.
-  intros s p b p' HR H. cbn in H. destruct (blocked p) eqn:Hb; inversion H; subst.
-  - destruct (R_blocked_nested _ _ HR Hb) as [e ->]. eexists _, s. split; [reflexivity|]. split; [auto|reflexivity].
+  intros s p b p' HR H. cbn in H. destruct (blocked p) eqn:Hb.
+  - inversion H; subst. destruct (R_blocked_nested _ _ HR Hb) as [e ->].
+    eexists _, s. split; [reflexivity|]. split; [auto|reflexivity].
   - pose proof Hb as Hb'. apply orb_false_elim in Hb'. destruct Hb' as [Hc Hx].
     unfold begin_nested, bind, autobegin_if_none, begin. destruct (c_root s) as [r|] eqn:Hr.
     + destruct (R_root_some _ _ _ HR Hr) as (nf & rs & Hst & _).
-      assert (E : autobegin_spec p = p) by (unfold autobegin_spec; rewrite Hst; destruct nf; reflexivity).
-      rewrite E. destruct (R_new_nested _ _ _ HR Hr Hx) as (s' & A & B). rewrite A.
+      assert (E : autobegin_spec p = (false, p)) by (unfold autobegin_spec; rewrite Hst; destruct nf; reflexivity).
+      rewrite E in H. inversion H; subst. destruct (R_new_nested _ _ _ HR Hr Hx) as (s' & A & B). rewrite A.
       eexists _, s'. split; [reflexivity|]. split; [auto|reflexivity].
-    + destruct (R_new_root _ _ HR Hr Hb) as (s1 & A & B & C). rewrite A.
-      assert (E : autobegin_spec p = open_frame true p).
+    + rewrite (R_nb _ _ HR).
+      destruct (R_new_root_any _ _ HR Hr Hb) as (r & s1 & A & B & C & D). rewrite A.
+      assert (E : autobegin_spec p = begin_root p).
       { unfold autobegin_spec. rewrite (proj2 (stack_root _ _ HR) Hr). reflexivity. }
-      rewrite E. destruct (R_new_nested _ _ _ B C) as (s' & A' & B').
-      { rewrite (ctx_bad_open_frame _ _ _ HR). auto. }
-      rewrite A'. eexists _, s'. split; [reflexivity|]. split; [auto|reflexivity].
+      rewrite E in H. destruct (begin_root p) as [b0 q] eqn:BR. cbn [fst snd] in *.
+      destruct r as [| e |]; cbn in C; try contradiction; subst b0.
+      * inversion H; subst. destruct (c_root s1) as [r1|] eqn:Hr1; [|exfalso; apply D; auto].
+        destruct (R_new_nested _ _ _ B Hr1) as (s' & A' & B').
+        { unfold begin_root in BR. destruct (p_beginfail p) as [|[x|x|]]; inversion BR; subst.
+          rewrite (ctx_bad_open_frame _ _ _ HR). auto. }
+        rewrite A'. eexists _, s'. split; [reflexivity|]. split; [auto|reflexivity].
+      * inversion H; subst. eexists _, s1. split; [reflexivity|]. split; [auto|reflexivity].
 Qed.
 
 Lemma sim_ins : forall s p v b p', R s p -> sstep (OIns v) p = Some (b, p') ->
   exists r s', ins v s = (r, s') /\ R s' p' /\ res_ok r b.
 Proof.
-  intros s p v b p' HR H. cbn in H. destruct (blocked p) eqn:Hb; inversion H; subst.
-  - destruct (R_blocked_ins _ _ v HR Hb) as [e ->]. eexists _, s. split; [reflexivity|]. split; [auto|reflexivity].
-  - destruct (R_exec_guard _ _ HR Hb) as (s1 & A & B & _). unfold ins, bind. rewrite A.
-    eexists _, _. split; [reflexivity|]. split; [apply R_insert; auto|reflexivity].
+  intros s p v b p' HR H. cbn in H. destruct (blocked p) eqn:Hb.
+  - inversion H; subst. destruct (R_blocked_ins _ _ v HR Hb) as [e ->].
+    eexists _, s. split; [reflexivity|]. split; [auto|reflexivity].
+  - destruct (R_exec_guard _ _ HR Hb) as (r & s1 & A & B & C & _). unfold ins, bind. rewrite A.
+    destruct (autobegin_spec p) as [b0 q]. cbn [fst snd] in *.
+    destruct r as [| e |]; cbn in C; try contradiction; subst b0; inversion H; subst.
+    + eexists _, _. split; [reflexivity|]. split; [apply R_insert; auto|reflexivity].
+    + eexists _, s1. split; [reflexivity|]. split; [auto|reflexivity].
 Qed.
 
 Lemma sim_conn_commit : forall s p b p', R s p -> WF s -> sstep OCommit p = Some (b, p') ->
@@ -1007,31 +1105,36 @@ Proof.
   - rewrite (proj2 (stack_root _ _ HR) Hr). eexists _, s. split; [reflexivity|]. split; [auto|reflexivity].
 Qed.
 
+Lemma rollback_conn_live : forall p, p_stack p <> [] -> rollback_conn p = (p_rbfail p, rollback_all p).
+Proof. intros. unfold rollback_conn. destruct (p_stack p); [contradiction|reflexivity]. Qed.
+
 Lemma sim_conn_rollback : forall s p b p', R s p -> WF s -> sstep ORollback p = Some (b, p') ->
   exists r s', conn_rollback s = (r, s') /\ R s' p' /\ res_ok r b.
 Proof.
-  intros s p b p' HR W H. cbn in H. inversion H; subst. unfold conn_rollback.
+  intros s p b p' HR W H. cbn in H. unfold conn_rollback.
   destruct (c_root s) as [r|] eqn:Hr.
   - destruct (R_root_some _ _ _ HR Hr) as (nf & rs & Hst & Hroot & _).
-    unfold t_rollback. rewrite Hroot. destruct (root_close_impl_R _ _ _ true HR W Hr) as (s' & A & B & _).
-    rewrite A. eexists _, s'. split; [reflexivity|]. split; [|reflexivity].
-    rewrite Hst. destruct nf; exact B.
-  - rewrite (proj2 (stack_root _ _ HR) Hr). eexists _, s. split; [reflexivity|]. split; [auto|reflexivity].
+    rewrite rollback_conn_live in H by (rewrite Hst; apply app_one_not_nil). inversion H; subst.
+    unfold t_rollback. rewrite Hroot. destruct (root_close_impl_R _ _ _ true HR W Hr) as (res & s' & A & B & C).
+    rewrite A. eauto.
+  - unfold rollback_conn in H. rewrite (proj2 (stack_root _ _ HR) Hr) in H. inversion H; subst.
+    eexists _, s. split; [reflexivity|]. split; [auto|reflexivity].
 Qed.
 
 Lemma sim_conn_close : forall s p b p', R s p -> WF s -> sstep OClose p = Some (b, p') ->
   exists r s', conn_close s = (r, s') /\ R s' p' /\ res_ok r b.
 Proof.
-  intros s p b p' HR W H. cbn in H. inversion H; subst. unfold conn_close, bind.
+  intros s p b p' HR W H. cbn in H. unfold conn_close, bind.
   destruct (c_root s) as [r|] eqn:Hr.
   - destruct (R_root_some _ _ _ HR Hr) as (nf & rs & Hst & Hroot & _).
-    unfold t_close. rewrite Hroot. destruct (root_close_impl_R _ _ _ false HR W Hr) as (s' & A & B & _).
-    rewrite A. eexists _, _. split; [reflexivity|]. split; [|reflexivity].
-    assert (E : match p_stack p with [] => p | _ :: _ => rollback_all p end = rollback_all p)
-      by (rewrite Hst; destruct nf; reflexivity).
-    rewrite E. apply (R_set_closed _ _ B). reflexivity.
-  - pose proof (proj2 (stack_root _ _ HR) Hr) as Hst. rewrite Hst.
-    eexists _, _. split; [reflexivity|]. split; [|reflexivity].
+    rewrite rollback_conn_live in H by (rewrite Hst; apply app_one_not_nil).
+    unfold t_close. rewrite Hroot. destruct (root_close_impl_R _ _ _ false HR W Hr) as (res & s' & A & B & C).
+    rewrite A. destruct (p_rbfail p); destruct res as [| e |]; cbn in C; try discriminate; try contradiction;
+      inversion H; subst.
+    + eexists _, s'. split; [reflexivity|]. split; [auto|reflexivity].
+    + eexists _, _. split; [reflexivity|]. split; [|reflexivity]. apply (R_set_closed _ _ B). reflexivity.
+  - pose proof (proj2 (stack_root _ _ HR) Hr) as Hst. unfold rollback_conn in H. rewrite Hst in H.
+    inversion H; subst. eexists _, _. split; [reflexivity|]. split; [|reflexivity].
     apply (R_set_closed _ _ HR Hst).
 Qed.
 
@@ -1049,16 +1152,16 @@ Qed.
 
 Lemma sim_t_close : forall s p k (c : bool) b p', R s p -> WF s ->
   k < p_next p -> ok_end k p && ok_dead_root k p = true ->
-  Some (false, if live k p then rollback_handle k p else p) = Some (b, p') ->
-  exists r s', (if c then t_rollback k s else t_close k s) = (r, s') /\ R s' p' /\ res_ok r b /\ same_but s s'.
+  Some (if live k p then rollback_handle k p else (false, p)) = Some (b, p') ->
+  exists r s', (if c then t_rollback k s else t_close k s) = (r, s') /\ R s' p' /\ res_ok r b.
 Proof.
   intros s p k c b p' HR W Hk Hg H. apply andb_true_iff in Hg. destruct Hg as [G1 G2].
-  inversion H; subst. destruct (live k p) eqn:Hl.
-  - destruct (live_close_R _ _ _ c HR W Hl G1) as (s' & A & B & C). rewrite A.
-    eexists _, s'. split; [reflexivity|]. split; [auto|split; [reflexivity|auto]].
-  - destruct (dead_close_R s p k c HR) as (s' & A & B & C); auto.
+  destruct (live k p) eqn:Hl.
+  - destruct (live_close_R _ _ _ c HR W Hl G1) as (res & s' & A & B & C). rewrite A.
+    destruct (rollback_handle k p) as [b0 q]. inversion H; subst. cbn in *. eauto.
+  - inversion H; subst. destruct (dead_close_R s p' k c HR) as (s' & A & B & C); auto.
     { rewrite (R_len _ _ HR). auto. }
-    rewrite A. eexists _, s'. split; [reflexivity|]. split; [auto|split; [reflexivity|auto]].
+    rewrite A. eexists _, s'. split; [reflexivity|]. split; [auto|reflexivity].
 Qed.
 
 Lemma sim_exit : forall s p k e b p', R s p -> WF s -> gstep (TExit k e) p = true ->
@@ -1076,29 +1179,30 @@ Proof.
   { rewrite (R_subject _ _ HR k Hkl), Hc. cbn. rewrite Nat.eqb_refl. reflexivity. }
   unfold t_exit. rewrite Hsub, Hcs. cbn [opt_is negb orb]. rewrite Nat.eqb_refl. cbn [negb].
   rewrite (R_active _ _ HR).
-  inversion H; subst b p'; clear H.
   destruct (live k p) eqn:Hl.
   - destruct e; cbn [negb andb].
     + (* exception: rollback *)
       unfold finally. rewrite (R_active _ _ HR), Hl. cbn [negb].
-      destruct (live_close_R _ _ _ true HR W Hl G2) as (s1 & A & B & C). cbn iota in A. rewrite A.
-      eexists _, _. split; [reflexivity|]. split; [|reflexivity].
-      assert (E : p_ctx (rollback_handle k p) = k :: l).
-      { unfold rollback_handle. destruct (below k (p_stack p)); cbn; auto. }
-      pose proof (R_exit_fin _ _ _ _ B E) as X. unfold exit_spec in X. exact X.
-    + unfold finally.
+      destruct (live_close_R _ _ _ true HR W Hl G2) as (res & s1 & A & B & C). cbn iota in A. rewrite A.
+      destruct (rollback_handle k p) as [b0 q] eqn:RH. inversion H; subst b p'. clear H. cbn [fst snd] in *.
+      assert (E : p_ctx q = k :: l).
+      { unfold rollback_handle in RH. destruct (below k (p_stack p)); inversion RH; subst; cbn; auto. }
+      pose proof (R_exit_fin _ _ _ _ B E) as X. unfold exit_spec in X.
+      eexists _, _. split; [reflexivity|]. split; [exact X|exact C].
+    + unfold finally. inversion H; subst b p'; clear H.
       destruct (live_commit_R _ _ _ HR W Hl G2) as (s1 & A & B & C). rewrite A.
       eexists _, _. split; [reflexivity|]. split; [|reflexivity].
       assert (E : p_ctx (commit_handle k p) = k :: l).
       { unfold commit_handle. destruct (below k (p_stack p)); cbn; auto. }
       pose proof (R_exit_fin _ _ _ _ B E) as X. unfold exit_spec in X. exact X.
-  - rewrite andb_false_r. unfold finally. rewrite (R_active _ _ HR), Hl. cbn [negb].
+  - inversion H; subst b p'; clear H.
+    rewrite andb_false_r. unfold finally. rewrite (R_active _ _ HR), Hl. cbn [negb].
     destruct (R_not_installed _ _ _ HR Hl) as (I1 & I2 & _).
     assert (Hi : installed k s = false) by (unfold installed; destruct (is_root k s); auto).
     rewrite Hi.
     destruct (dead_close_R s p k false HR Hkl Hl G3) as (s1 & A & B & C). cbn iota in A. rewrite A.
     eexists _, _. split; [reflexivity|]. split; [|reflexivity].
-    pose proof (R_exit_fin _ _ _ _ B Hc) as X. unfold exit_spec in X. rewrite Hc in X. rewrite Hc. exact X.
+    pose proof (R_exit_fin _ _ _ _ B Hc) as X. unfold exit_spec in X. exact X.
 Qed.
 
 Lemma sim_op : forall o s p b p', R s p -> WF s -> gstep o p = true -> sstep o p = Some (b, p') ->
@@ -1113,16 +1217,18 @@ Proof.
   - eapply sim_conn_close; eauto.
   - eapply sim_t_commit; eauto.
   - unfold sstep in H. unfold gstep in Hg. destruct (k <? p_next p) eqn:Hk; [|discriminate].
-    apply Nat.ltb_lt in Hk.
-    destruct (sim_t_close s p k true b p' HR W Hk Hg H) as (r & s' & A & B & C & _). eauto.
+    apply Nat.ltb_lt in Hk. apply (sim_t_close s p k true b p' HR W Hk Hg H).
   - unfold sstep in H. unfold gstep in Hg. destruct (k <? p_next p) eqn:Hk; [|discriminate].
-    apply Nat.ltb_lt in Hk.
-    destruct (sim_t_close s p k false b p' HR W Hk Hg H) as (r & s' & A & B & C & _). eauto.
+    apply Nat.ltb_lt in Hk. apply (sim_t_close s p k false b p' HR W Hk Hg H).
   - unfold sstep in H. unfold gstep in Hg. destruct (k <? p_next p) eqn:Hk; [|discriminate].
     apply Nat.ltb_lt in Hk. inversion H; subst. apply negb_true_iff in Hg.
     eexists _, _. split; [reflexivity|]. split; [|reflexivity].
     apply R_enter; auto. rewrite (R_len _ _ HR). auto.
   - eapply sim_exit; eauto.
+  - cbn in H. inversion H; subst. eexists _, _. split; [reflexivity|]. split; [|reflexivity].
+    eapply R_env; eauto; norm; auto using (R_nb _ _ HR), (R_rbfail _ _ HR).
+  - cbn in H. inversion H; subst. eexists _, _. split; [reflexivity|]. split; [|reflexivity].
+    eapply R_env; eauto; norm; auto using (R_nb _ _ HR), (R_bfail _ _ HR).
 Qed.
 
 (* one step of a guarded history *)
